@@ -141,6 +141,7 @@ fifth batch (replace_pattern_in_structure: sample size, index map, deletion sets
   `for … : … break` updating one variable `Py.forBreak` / `Py.forBreakM?`: the body yields (state, did it break); loops may be nested inside a fold
                                           body when they update the same variable
   `norm(v) < d` (numpy.linalg.norm, 3-vector) `Py.normLt v d` = `0 < d ∧ ‖v‖² < d²` (exact: no square root); any other use of a norm is Unsupported
+  `[e for pat in xs if c]`                `List.filterMap (fun pat => if c then some e else none) xs` (pat a name or a tuple of names; c, e cannot raise)
   `x % 1.0` on a float (also element-wise) `Py.fmod1 x` = `x - floor x` (exact on the rational; the divisor must be the literal 1.0 / 1)
   fragments also: `("stmt", "text then e")` with an EXPRESSION e (not only a name);
                   `("ifstmt", "text then e")` the value of expression e right after the unique `if` STATEMENT whose test contains text
@@ -963,6 +964,39 @@ class Fn:
             if inner.binds or inner.items is not None:
                 self.fail(node, "nested comprehension whose inner part may raise or is a static list")
             return V("(List.flatten (List.map (fun %s => %s) %s))" % (nm, inner.term, src.term), inner.ty, src.binds, (inner.refs - {nm}) | src.refs)
+        g0 = node.generators[0]
+        if len(node.generators) == 1 and not g0.is_async and (g0.ifs or isinstance(g0.target, ast.Tuple)) and \
+                (isinstance(g0.target, ast.Name) or all(isinstance(e, ast.Name) for e in g0.target.elts)):
+            # `[e for pat in xs if c]` (pat a name or a tuple of names): `List.filterMap (fun pat => if c then some e else none) xs`
+            src = self.ex(g0.iter, env)
+            if src.ty == OPAQUE:
+                return V.opaque()
+            if not (isinstance(src.ty, tuple) and src.ty[0] == "list") or src.items is not None:
+                self.fail(node, "filtered comprehension over %s" % (src.ty,))
+            e2 = dict(env)
+            if isinstance(g0.target, ast.Name):
+                names = [self.lname(g0.target.id)]
+                e2[g0.target.id] = V(names[0], src.ty[1], (), {names[0]})
+                pat = names[0]
+            else:
+                ety = src.ty[1]
+                if not (isinstance(ety, tuple) and ety[0] == "tuple" and len(ety[1]) == len(g0.target.elts)):
+                    self.fail(node, "comprehension target for elements of type %s" % (ety,))
+                names = [self.lname(e.id) for e in g0.target.elts]
+                for e, nm, ty in zip(g0.target.elts, names, ety[1]):
+                    e2[e.id] = V(nm, ty, (), {nm})
+                pat = "(%s)" % ", ".join(names)
+            conds = [self.cond(c, e2) for c in g0.ifs]
+            body = self.ex(node.elt, e2)
+            if body.ty == OPAQUE or any(c.ty == OPAQUE for c in conds):
+                return V.opaque()
+            if body.binds or any(c.binds for c in conds):
+                self.fail(node, "filtered comprehension whose test or element may raise")
+            if body.ty in (INTLIT, DECLIT):
+                body = self.coerce(node, body, NAT if body.ty == INTLIT else NUM)
+            refs = (set(body.refs) | {r for c in conds for r in c.refs}) - set(names) | src.refs
+            test = " && ".join(c.term for c in conds) if conds else "true"
+            return V("(List.filterMap (fun %s => if (%s) then some %s else none) %s)" % (pat, test, body.term, src.term), LIST(body.ty), src.binds, refs)
         if len(node.generators) != 1 or node.generators[0].ifs or node.generators[0].is_async or \
                 not isinstance(node.generators[0].target, ast.Name):
             self.fail(node, "comprehension shape")
@@ -2810,6 +2844,8 @@ FUNCTIONS += [
          objattrs={"orig_structure": {"positions": LIST(VEC3), "elements": LIST(STR)},
                    "final_structure": {"positions": LIST(VEC3), "elements": LIST(STR)}}, ret=LIST(TUP(NAT, NAT)),
          doc="; the structures are given by their position rows and their per-atom element lists (`Atoms.elements`); `none` = IndexError"),
+    dict(file="mofun/helpers.py", py="atoms_of_type", lean="atomsOfType", params=[("types", LIST(STR)), ("element", STR)], ret=LIST(NAT),
+         doc=": the positions of `element` in `types`, ascending"),
     dict(_REPL, lean="replaceEmptyBranch", fragment=[("if", "len(replace_pattern)"), "test"], params=[], inputs={},
          objattrs={"replace_pattern": {"__len__": NAT}}, ret=BOOL,
          doc=" (FRAGMENT: is the replacement empty, i.e. is this a pure deletion)"),
